@@ -77,9 +77,13 @@ func (p *Publication[T]) Publish(message T) {
 				case sub.receiveCh <- message:
 					// continue
 				case <-time.After(sub.timeout):
-					// continue
+					if sub.onTimeout != nil {
+						sub.onTimeout(message)
+					}
 				}
 			}()
+		} else if sub.onFiltered != nil {
+			sub.onFiltered(message)
 		}
 	}
 }
